@@ -134,12 +134,12 @@ def yields_error_value(n):
         name = n.children[0].value
         if name == "dyn" and len(n.children) == 2 and n.children[1].children:
             return yields_error_value(n.children[1].children[0])
-        return name not in ev.base_functions and name != "has"
+        return (name not in ev.base_functions and name != "has") or name == "matches"
     if n.data == "dot_ident_arg":
         return True
     if n.data == "member_dot_arg":
         name = n.children[1].value
-        return name not in ev.base_functions or name in MACROS
+        return name not in ev.base_functions or name in MACROS or name == "matches"       # matches() RETURNS its error for a bad pattern
     return False
 
 
@@ -280,6 +280,17 @@ def build(rep, tier="quick", seed=0, known=None):
         nested = [c for c in nested if any(k in c.name for k in ("[neg(", "(neg(", "[not(", "(not(", "[paren(", "(paren("))]
     run_contracts(SIM.contracts() + SIM.result_contracts() + nested, rep, known=known)
     SIM.same_callable_table(rep)
+    # the other half of every simulation contract: the transpiler methods whose emitted text is executed, and result()
+    from pyvc import symexec as se_
+    srcs = se_.Engine().sources
+    for m in ("expr", "conditionalor", "conditionaland", "relation", "addition", "multiplication", "unary", "member_dot", "member_dot_arg", "member_index",
+              "primary", "ident_arg", "list_lit", "map_lit", "exprlist", "mapinits", "paren_expr", "func_name"):
+        try:
+            fn = ev.Phase1Transpiler.__dict__[m]
+            node, ms = srcs.node_for_function(fn)
+            rep.functions[f"Phase1Transpiler.{m} (emits the text co-executed in sim[...])"] = {"target": f"celpy.evaluation:Phase1Transpiler.{m}", "file": ms.path, "lines": ms.span(node), "sha256": ms.sha256}
+        except Exception as ex:
+            rep.errors.append(f"Phase1Transpiler.{m}: {ex!r}")
     wit = (listed.get("C03-error-value-as-element-or-argument") or {}).get("witness", {}).get("text")
     wit_diverges = None
     if wit:
